@@ -10,6 +10,7 @@ def main() -> int:
     ap.add_argument('prop')
     ap.add_argument('--tier', default=os.environ.get('VERIF_TIER', 'quick'), choices=['quick', 'thorough'])
     ap.add_argument('--replay', default=None)
+    ap.add_argument('--quiet-replay', action='store_true')
     ap.add_argument('--no-lean', action='store_true', help='development only: skip the Lean stage')
     a = ap.parse_args()
     seed = int(os.environ.get('VERIF_SEED', '0') or 0)
@@ -21,7 +22,7 @@ def main() -> int:
         print(f'no check for property {a.prop}', file=sys.stderr)
         return 2
     if a.replay:
-        return core.replay(plugin, a.prop, a.replay)
+        return core.replay(plugin, a.prop, a.replay, quiet=a.quiet_replay)
     return core.run_check(plugin, a.prop, a.tier, seed, skip_lean=a.no_lean)
 
 
